@@ -236,8 +236,10 @@ class _NegatedOperators(ast.NodeTransformer):
     def visit_UnaryOp(self, node):
         self.generic_visit(node)
         c = node.operand
-        if isinstance(node.op, ast.Not) and isinstance(c, ast.Compare) and len(c.ops) == 1 and isinstance(c.ops[0], (ast.Is, ast.In)):
-            new = ast.Compare(left=c.left, ops=[ast.IsNot() if isinstance(c.ops[0], ast.Is) else ast.NotIn()], comparators=c.comparators)
+        if isinstance(node.op, ast.Not) and isinstance(c, ast.Compare) and len(c.ops) == 1 and isinstance(c.ops[0], (ast.Is, ast.In, ast.IsNot, ast.NotIn)):
+            # identity and membership have exact complements (`not (a not in b)` is `a in b`); == / != of user types do not
+            dual = {ast.Is: ast.IsNot, ast.IsNot: ast.Is, ast.In: ast.NotIn, ast.NotIn: ast.In}[type(c.ops[0])]
+            new = ast.Compare(left=c.left, ops=[dual()], comparators=c.comparators)
             ast.copy_location(new, node)
             return new
         return node
